@@ -139,7 +139,7 @@ func runC10(p *C10Plan) (*stats.Case, error) {
 		return true, nil
 	}
 	sawCRA, restartBetween := false, false // create->revoke->auth of the same token; restart between two of them
-	phase := map[string]int{}                // token -> 1 created, 2 revoked, 3 authenticated after revoke
+	phase := map[string]int{}              // token -> 1 created, 2 revoked, 3 authenticated after revoke
 	restartsSeen := map[string]int{}
 	restarts := 0
 	wsChecks := 0
